@@ -13,6 +13,7 @@ for extra in ("round3_descriptions.json", "round4_descriptions.json", "round5_de
         desc.update(json.load(open(os.path.join(S, extra))))
 INITIALLY_MISSED = set("""C01-2 C03-1 C06-1 C06-2 C07-1 C07-2 C08-1 C12-2 C13-2 C14-1 C14-2 C15-1 C16-1 C16-2 C17-2 C18-2 C19-1 C19-2 C20-2
 C01-4 C02-3 C03-3 C04-4 C05-4 C06-3 C09-3 C09-4 C10-3 C10-4 C11-3 C11-4 C13-3 C14-3 C14-4 C15-3 C15-4 C16-3 C16-4 C17-3 C18-4 C19-3 C20-3 C20-4
+C01-11 C02-11 C03-11 C05-11 C05-12 C06-11 C07-12 C08-11 C09-11 C10-11 C10-12 C11-11 C11-12 C12-12 C13-11 C13-12 C14-11 C14-12 C15-11 C15-12 C16-11 C16-12 C18-11 C18-12 C19-11 C19-12 C20-12
 C02-10 C03-10 C05-10 C06-9 C06-10 C07-10 C08-9 C09-10 C10-10 C11-9 C12-9 C12-10 C13-10 C14-9 C14-10 C15-9 C15-10 C16-10 C18-10 C19-9
 C01-7 C02-7 C05-7 C06-8 C07-7 C08-7 C09-7 C09-8 C11-7 C12-7 C12-8 C14-7 C14-8 C15-8 C16-7 C16-8 C17-7 C18-7 C18-8 C19-7 C19-8 C20-7
 C01-5 C01-6 C02-5 C02-6 C03-5 C05-5 C06-5 C07-5 C08-5 C09-5 C09-6 C10-5 C11-5 C11-6 C12-5 C12-6 C13-5 C14-6 C16-5 C17-6 C18-5 C18-6 C20-6""".split())
